@@ -242,6 +242,105 @@ def add_literals(pack):
     c.replay(lambda m, ctx, ob: LIT_REPLAY)
     c.replay_without_model = True
 
+    # ---- keywords and symbols: ":ns/name" / "ns/name" out, the token's (ns, name) in
+    from basilisp.lang import keyword as kw, symbol as sym
+
+    KW_OF = z3.Function("interned_keyword", V.Val, V.Val, V.Val)   # kw.keyword(name, ns=ns): one object per (ns, name)
+    ISNUMERIC = z3.Function("str_isnumeric", V.Val, z3.BoolSort())
+
+    def nsetup(eng, st):
+        for c_ in (kw.Keyword, sym.Symbol):
+            eng.class_id(c_)
+        for cn in ("Keyword", "Symbol"):
+            eng.field_types[(cn, "_name")] = lambda v: V.is_str(v)
+            eng.field_types[(cn, "_ns")] = lambda v: z3.Or(V.is_none(v), V.is_str(v))
+
+    def printed(st, o, colon):
+        ns, name = R.fld(st, o, "_ns"), V.Val.s(R.fld(st, o, "_name"))
+        body = z3.If(V.is_none(ns), name, z3.Concat(V.Val.s(ns), z3.StringVal("/"), name))
+        return V.mk_str(z3.Concat(z3.StringVal(":"), body) if colon else body)
+
+    c = pack.contract("basilisp.lang.keyword:Keyword._lrepr")
+    c.param("self", OBJ(kw.Keyword))
+    c.setup(nsetup)
+    c.raises()
+    c.ensures("a keyword prints as :name or :ns/name", lambda a: a.result == printed(a.pre.st, a.self, True))
+    c.replay(lambda m, ctx, ob: LIT_REPLAY)
+    c.replay_without_model = True
+
+    c = pack.contract("basilisp.lang.symbol:Symbol._lrepr")
+    c.label = "without metadata printing"
+    c.param("self", OBJ(sym.Symbol))
+    c.setup(nsetup)
+    c.extra_kwargs = {"print_meta": False}
+    c.raises()
+    c.ensures("a symbol prints as name or ns/name", lambda a: a.result == printed(a.pre.st, a.self, False))
+    c.replay(lambda m, ctx, ob: LIT_REPLAY)
+    c.replay_without_model = True
+
+    def ksetup(eng, st):
+        ssetup(eng, st)
+        nsetup(eng, st)
+        srid = eng.class_id(rd.StreamReader)
+        eng.field_types[("ReaderContext", "_reader")] = lambda v: (z3.And(V.is_ref(v), V.cls_of(V.Val.a(v)) == srid), rd.StreamReader)
+
+        def keyword(e, s, a, k):
+            name = e.lift(a[0], s)
+            ns = e.lift(k.get("ns", a[1] if len(a) > 1 else None), s)
+            r = KW_OF(ns, name)
+            s.assume(V.is_ref(r), V.Val.a(r) <= 0, V.cls_of(V.Val.a(r)) == e.class_id(kw.Keyword))
+            yield s, SV(r)
+
+        eng.models[id(kw.keyword)] = Model("kw.keyword (the interned keyword of a namespace and name)", keyword)
+
+        def split(e, s, a, k):
+            sv = e.alloc(s, list)
+            s.lists = z3.Store(s.lists, V.Val.a(sv.t), z3.Const(V.fresh_name("segments"), V.ValSeq))
+            yield s, sv
+
+        eng.method_models[(str, "split")] = Model("str.split (over-approximated: some list)", split)
+
+        def any_(e, s, a, k):
+            yield s, SV(V.mk_bool(z3.Const(V.fresh_name("any_segment_empty"), z3.BoolSort())))
+
+        eng.models[id(any)] = Model("any(<generator over a symbolic list>) (over-approximated: either answer)", any_)
+        eng.method_models[(str, "isnumeric")] = Model("str.isnumeric (opaque)", lambda e, s, a, k: iter([(s, SV(V.mk_bool(ISNUMERIC(a[0].t))))]))
+
+    c = pack.contract("basilisp.lang.reader:_read_kw")
+    c.label = "a plain keyword"
+    c.param("ctx", OBJ(rd.ReaderContext))
+    c.setup(ksetup)
+
+    def kw_pre(a):
+        r = R.fld(a.pre.st, a.ctx, "_reader")
+        p = R.pos(a.pre.st, r)
+        nxt = R.CH(p + 1)  # (is a string of at most one character: the instance of the text axiom, stated ground for the path pruning)
+        return z3.And(R.WF(a.eng, a.pre.st, r), R.CH(p) == V.mk_str(":"), V.is_str(nxt), R.ONECHAR(nxt), nxt != V.mk_str(":"), z3.Not(ISNUMERIC(nxt)))
+
+    c.requires("the reader is well-formed and stands on the colon of a keyword that is neither auto-resolved (::) nor numeric", kw_pre)
+    c.raises(rd.SyntaxError)
+    c.ensures(":token reads as the keyword with exactly the token's namespace and name", lambda a: a.result == KW_OF(NS_TOK, NAME_TOK))
+    c.replay(lambda m, ctx, ob: LIT_REPLAY)
+    c.replay_without_model = True
+
+    c = pack.contract("basilisp.lang.reader:_read_sym")
+    c.label = "a plain symbol outside a syntax-quote"
+    c.param("ctx", OBJ(rd.ReaderContext)).param("is_reader_macro_sym", T(lambda v: V.is_bool(v), None, "bool"))
+    c.setup(ksetup)
+
+    def plain(a):
+        q = z3.Select(a.pre.st.lists, V.Val.a(R.fld(a.pre.st, a.ctx, "_syntax_quoted")))
+        nm = V.Val.s(NAME_TOK)
+        return z3.And(z3.Length(q) == 0, *[nm != z3.StringVal(x) for x in ("nil", "true", "false", "&")], z3.Not(z3.SuffixOf(z3.StringVal("#"), nm)))
+
+    c.requires("outside a syntax-quote; the token is not nil / true / false / & and no auto-gensym", plain)
+    c.raises(rd.SyntaxError)
+    c.ensures("a token reads as the symbol with exactly the token's namespace and name",
+              lambda a: z3.And(V.is_ref(a.result), V.cls_of(V.Val.a(a.result)) == a.eng.class_id(sym.Symbol),
+                               R.fld(a.post.st, a.result, "_ns") == NS_TOK, R.fld(a.post.st, a.result, "_name") == NAME_TOK))
+    c.replay(lambda m, ctx, ob: LIT_REPLAY)
+    c.replay_without_model = True
+
 
 LIT_REPLAY = r'''
 from basilisp.lang import reader
@@ -255,6 +354,12 @@ for v in (None, True, False):
     q = list(reader.read_str("`" + t))
     if not (len(q) == 1 and q[0] is v):
         bad.append("%r inside a syntax-quote reads as %r" % (t, q))
+from basilisp.lang import keyword as kw, symbol as sym
+for v in (kw.keyword("a"), kw.keyword("b", ns="n.s"), kw.keyword("x-y?"), sym.symbol("a"), sym.symbol("b", ns="n.s"), sym.symbol("+"), sym.symbol("x.y/z") if False else sym.symbol("z", ns="x.y")):
+    t = lrepr(v)
+    back = list(reader.read_str(t))
+    if not (len(back) == 1 and back[0] == v and type(back[0]) is type(v)):
+        bad.append("%r prints as %r which reads as %r" % (v, t, back))
 for line in bad[:10]:
     print(line)
 print("REPRODUCED" if bad else "not reproduced")
